@@ -64,6 +64,11 @@ func isClosedChan(c <-chan struct{}) bool {
 	}
 }
 
+type pendWrite struct {
+	ch   chan struct{}
+	size int
+}
+
 // WriteRec is one Write call as observed by the other side.
 type WriteRec struct {
 	Data []byte
@@ -91,6 +96,8 @@ type End struct {
 	rdl, wdl      deadline
 	CloseCount    int
 	wclosed       bool // CloseWrite was called
+	stallEach     bool // every Write blocks until the harness commits it individually
+	pend          []*pendWrite
 }
 
 // Pipe returns two connected ends. a is usually handed to the implementation.
@@ -166,6 +173,56 @@ func (e *End) Write(b []byte) (int, error) {
 			}
 			e.mu.Unlock()
 			return 0, err
+		}
+		if e.stallEach && first {
+			// park this write until the harness commits it (write completion is an event)
+			pw := &pendWrite{ch: make(chan struct{}), size: len(b)}
+			e.pend = append(e.pend, pw)
+			cond := e.cond
+			e.mu.Unlock()
+			select {
+			case <-pw.ch:
+			case <-cond:
+				// closed or reset while parked
+				e.mu.Lock()
+				for i, x := range e.pend {
+					if x == pw {
+						e.pend = append(e.pend[:i], e.pend[i+1:]...)
+					}
+				}
+				bad := e.closed || e.reset != nil
+				e.mu.Unlock()
+				if bad {
+					return 0, net.ErrClosed
+				}
+				<-pw.ch
+			case <-e.wdl.wait():
+				e.mu.Lock()
+				for i, x := range e.pend {
+					if x == pw {
+						e.pend = append(e.pend[:i], e.pend[i+1:]...)
+					}
+				}
+				e.mu.Unlock()
+				return 0, os.ErrDeadlineExceeded
+			}
+			e.mu.Lock()
+			if e.closed {
+				e.mu.Unlock()
+				return 0, net.ErrClosed
+			}
+			data := append([]byte(nil), b...)
+			e.taps = append(e.taps, WriteRec{Data: data, At: time.Now()})
+			e.nWrites++
+			e.mu.Unlock()
+			p := e.peer
+			p.mu.Lock()
+			if !p.closed {
+				p.inbox = append(p.inbox, data)
+				p.signal()
+			}
+			p.mu.Unlock()
+			return len(b), nil
 		}
 		if !e.stall {
 			if !first {
@@ -316,6 +373,29 @@ func (e *End) Commit() {
 	e.gate = make(chan struct{})
 	e.mu.Unlock()
 	close(g)
+}
+
+// StallEach makes every Write by this end park until CommitOne releases it.
+func (e *End) StallEach() { e.mu.Lock(); e.stallEach = true; e.mu.Unlock() }
+
+// Parked returns the sizes of the parked writes in arrival order.
+func (e *End) Parked() []int {
+	e.mu.Lock()
+	defer e.mu.Unlock()
+	var out []int
+	for _, p := range e.pend {
+		out = append(out, p.size)
+	}
+	return out
+}
+
+// CommitOne lets the i-th parked write complete.
+func (e *End) CommitOne(i int) {
+	e.mu.Lock()
+	pw := e.pend[i]
+	e.pend = append(e.pend[:i:i], e.pend[i+1:]...)
+	e.mu.Unlock()
+	close(pw.ch)
 }
 
 // StalledWrites is the number of Write calls currently blocked.
